@@ -1022,7 +1022,8 @@ def merge(fs):
             else:
                 propd = dict([(p, getattr(v, p)) for p in v.ncattrs()])
                 outf.createVariable(
-                    k, v.dtype.char, v.dimensions, values=v, **propd)
+                    k, v.dtype.char, v.dimensions, values=v[...].copy(),
+                    **propd)
 
     return outf
 
